@@ -491,6 +491,9 @@ func checkC10(c *Ctx, r *Report) {
 		r.rule("no-loop-op", 1, "the compiler never emits a backward jump (LOOP): jumps only go forward, so pc strictly increases")
 		r.check(!m.Emitted["opLOOP"], "no-loop-op", "LOOP", "never emitted", "the compiler emits LOOP (a backward jump)", "")
 	}
+	if c.Tier == "thorough" && c.Config == "default" {
+		ruleGrammarEnum(c, r, "grammar-enumeration")
+	}
 	r.trust("the data-structure invariant behind endScope: locals are ordered by declaration and those with depth greater than the current depth were declared in the scope being closed (argued in DESIGN.md, its code shape is checked by helpers/parser.endScope)")
 	r.trust("the dispatch axiom: a rules-table entry is called only for the token in p.prev at the time of the call (checked at each dynamic call site in parsePrecedence)")
 	r.assume("assumption A: paths on which the compiler raises a diagnostic are ignored, because parse returns an error iff errorAt ran (checked by C17 error-iff-diagnostic)")
